@@ -549,4 +549,15 @@ func (x *Exec) ifaceStored(st *State, iv IfaceV, p PtrV) {
 		viewDecl(x)
 		st.assume(tEq(app("g_size", p.Ref), d.Get(i, st.heapSelect(p.RootSort, p.Ref))))
 	}
+	// ReadAt promoted from an embedded io.ReaderAt: the object serves the embedded reader's bytes
+	if i := d.FieldIndex("ReaderAt"); i >= 0 && d.Fields[i].Sort == SInt && strings.HasPrefix(d.Name, "T_authenticode_") {
+		viewDecl(x)
+		st.assume(tEq(app("g_view", p.Ref), app("g_view", d.Get(i, st.heapSelect(p.RootSort, p.Ref)))))
+	}
+	// abstraction function of the positional concatenation: the view of a *multi is the
+	// concatenation of its parts' views (that (*multi).ReadAt serves exactly this is its contract)
+	if i := d.FieldIndex("parts"); i >= 0 && d.Name == "T_authenticode_multi" && x.w.DTByName(offSrcSort) != nil {
+		viewDecl(x)
+		st.assume(tEq(app("g_view", p.Ref), app("g_partviews", d.Get(i, st.heapSelect(p.RootSort, p.Ref)))))
+	}
 }
